@@ -234,6 +234,7 @@ type c10Tx struct {
 	Outs     []scriptSpec `json:"outs"`
 	LockTime uint32       `json:"locktime"`
 	PadOuts  int          `json:"pad_outs,omitempty"` // this many outputs with an empty script precede Outs
+	PadIns   int          `json:"pad_ins,omitempty"`  // this many inputs spending unrelated outside outputs precede Ins
 }
 
 type c10Preload struct {
@@ -253,8 +254,10 @@ type c10Case struct {
 	Perm    []int        `json:"perm"` // block order: positions -> creation index (normalised to a permutation)
 	PermTag string       `json:"perm_tag"`
 	// Filler: this many unrelated transactions (no outputs, one external input) stand in front of the others in the block
-	Filler int   `json:"filler,omitempty"`
-	DupPos []int `json:"dup_pos,omitempty"` // further block positions holding a transaction that is already in the block
+	Filler int `json:"filler,omitempty"`
+	// FillerSpread: the fillers stand between the others (evenly) instead of in front of them
+	FillerSpread bool  `json:"filler_spread,omitempty"`
+	DupPos       []int `json:"dup_pos,omitempty"` // further block positions holding a transaction that is already in the block
 }
 
 type builtTx struct {
@@ -281,6 +284,14 @@ func buildTxs(c c10Case) ([]*builtTx, error) {
 	for ti, t := range c.Txs {
 		b := &builtTx{msg: wire.NewMsgTx(1)}
 		b.msg.LockTime = t.LockTime
+		if t.PadIns < 0 || t.PadIns > 5000 {
+			return nil, hbug("pad_ins")
+		}
+		for i := 0; i < t.PadIns; i++ {
+			prev := extHash(4)
+			b.msg.AddTxIn(wire.NewTxIn(wire.NewOutPoint(&prev, uint32(9000+i)), nil))
+			b.inPsh = append(b.inPsh, nil)
+		}
 		for _, in := range t.Ins {
 			var prev chainhash.Hash
 			if in.Src == nullSrc { // a coinbase-style input: null outpoint, the script is free-form data
@@ -549,8 +560,22 @@ func evalC10(c c10Case, o *Obs) error {
 		for i := len(c.Txs); i < len(txs); i++ {
 			full = append(full, i)
 		}
-		perm = append(full, perm...)
-		o.Class("C10:block-of-more-than-65536-transactions")
+		if c.FillerSpread {
+			var mixed []int
+			per, k := len(full)/(len(perm)+1), 0
+			for _, pi := range perm {
+				mixed = append(mixed, full[k:k+per]...)
+				k += per
+				mixed = append(mixed, pi)
+			}
+			perm = append(mixed, full[k:]...)
+			o.Class("C10:relevant-transactions-spread-over-a-block-of-hundreds")
+		} else {
+			perm = append(full, perm...)
+		}
+		if c.Filler > 65000 {
+			o.Class("C10:block-of-more-than-65536-transactions")
+		}
 	}
 	for _, d := range c.DupPos { // the same transaction at a further position of the block
 		if d < 0 {
@@ -904,6 +929,9 @@ func genC10(t *rapid.T) c10Case {
 		if c.Flags == 2 {
 			c.Preload = []c10Preload{{Kind: "item", A: 0}}
 		}
+		if rapid.IntRange(0, 3).Draw(t, "webspread") == 0 {
+			c.Filler, c.FillerSpread = rapid.SampledFrom([]int{60, 64, 100, 256, 300}).Draw(t, "webfiller"), true
+		}
 		c.PermTag = "random"
 		c.Perm = rapid.Permutation(seqInts(len(c.Txs))).Draw(t, "webperm")
 		if rapid.Bool().Draw(t, "webrev") {
@@ -934,11 +962,18 @@ func genC10(t *rapid.T) c10Case {
 			}
 			tx.Ins = append(tx.Ins, in)
 		}
+		if rapid.IntRange(0, 24).Draw(t, "padins") == 0 { // hundreds of unrelated inputs in front of the ones that matter
+			tx.PadIns = rapid.SampledFrom([]int{31, 32, 33, 255, 256, 257, 287, 288, 300, 320, 511, 512, 600}).Draw(t, "npadins")
+		}
 		nout := rapid.IntRange(0, 4).Draw(t, "nout")
 		for i := 0; i < nout; i++ {
 			tx.Outs = append(tx.Outs, genScriptSpec(t, len(c.Pool), false))
 		}
 		c.Txs = append(c.Txs, tx)
+	}
+	if rapid.IntRange(0, 11).Draw(t, "spread") == 0 {
+		// the block has a few hundred other transactions, the ones that matter stand far apart
+		c.Filler, c.FillerSpread = rapid.SampledFrom([]int{60, 64, 100, 256, 300, 1000}).Draw(t, "nfiller"), true
 	}
 	if rapid.IntRange(0, 9).Draw(t, "dup") == 0 {
 		for k := rapid.IntRange(1, 2).Draw(t, "ndup"); k > 0; k-- {
